@@ -12,6 +12,7 @@
 """
 
 import ast
+from ..source import clone as _clone
 
 from ..classfacts import candidate_kinds, pair_flow, threshold_roles
 from ..flow import Flow
@@ -404,15 +405,22 @@ def run(ctx, chk, tier="quick"):
                     call_arg_ok = isinstance(a, ast.Name) and a.id == n.target.id
                     loopvar = n
     src_ok = False
+    src_known = False
     if loopvar is not None and isinstance(loopvar.iter, ast.Name):
         for b in bindings(ctx, ci):
             if loopvar.iter.id in b.names:
                 sel = b.site.stmt
-                src_ok = sel.distinct and any(c[0] == "bin" and c[1] == "ISNOT" and c[3] == ("null",) for c in conjuncts(sel.where))
-    chk.ob("C03.O6", call_arg_ok and src_ok, where_of(ci, loopvar or ci.node),
-           "per-interval loop passes its own label: %s; labels are the distinct non-NULL data intervals: %s" % (call_arg_ok, src_ok),
-           "each gap-free stretch is classified on its own", key="classify_intervals|per-interval-loop",
-           why="a run computed over concatenated stretches would cross a gap")
+                col0 = sel.columns[0][0] if sel.columns else None
+                grouped = bool(sel.group_by) and col0 is not None and len(sel.group_by) == 1 and sel.group_by[0] == col0
+                src_ok = (sel.distinct or grouped) and any(c[0] == "bin" and c[1] == "ISNOT" and c[3] == ("null",) for c in conjuncts(sel.where))
+                src_known = True
+    if loopvar is None or not src_known:
+        chk.indeterminate("C03.O6", where_of(ci, loopvar or ci.node), "the loop over the data-interval labels, or the query that feeds it, is not recognised")
+    else:
+        chk.ob("C03.O6", call_arg_ok and src_ok, where_of(ci, loopvar or ci.node),
+               "per-interval loop passes its own label: %s; labels are the distinct non-NULL data intervals: %s" % (call_arg_ok, src_ok),
+               "each gap-free stretch is classified on its own", key="classify_intervals|per-interval-loop",
+               why="a run computed over concatenated stretches would cross a gap")
     n_feed = 0
     for fq in ("classify.classify_interstorms", "classify.match_all_storms"):
         f = ctx.func(fq)
@@ -439,13 +447,51 @@ def run(ctx, chk, tier="quick"):
                         if isinstance(pn, ast.Tuple) and isinstance(par[1], int) and par[1] < len(pn.elts):
                             a = pn.elts[par[1]]
                             restricted = isinstance(a, ast.Name) and a.id in f.params
-            eqs = set()
+            # equivalence classes of (table, column) under the join equalities (ON / WHERE / USING)
+            alias = {x.alias: x.table for x in sel.sources if x.table}
+            cols_of = {t: set(ctx.schema.columns_of(t)) for t in alias.values()} if hasattr(ctx.schema, "columns_of") else {}
+
+            def owner(q, c):
+                if q:
+                    return alias.get(q, q)
+                own = [t for t, cs in cols_of.items() if c in cs]
+                if len(own) > 1 and len({find((t, c)) for t in own}) == 1:
+                    return own[0]          # merged by USING: one column
+                return own[0] if len(own) == 1 else None
+
+            parent_ = {}
+
+            def find(x):
+                while parent_.setdefault(x, x) != x:
+                    x = parent_[x]
+                return x
+
+            def union(a_, b_):
+                parent_[find(a_)] = find(b_)
+
+            seen_tabs = []
+            for src in sel.sources:
+                if src.using and src.table:
+                    for c in src.using:
+                        for t in seen_tabs:
+                            if not cols_of or c in cols_of.get(t, ()):
+                                union((t, c), (src.table, c))
+                if src.table:
+                    seen_tabs.append(src.table)
             for pr in preds:
                 if pr[0] == "bin" and pr[1] == "=" and pr[2][0] == "col" and pr[3][0] == "col":
-                    eqs.add(frozenset([(pr[2][1], pr[2][2]), (pr[3][1], pr[3][2])]))
-            joined = frozenset([("rainfall_intensity", "from_epoch"), ("grid_time", "epoch")]) in eqs and \
-                frozenset([("rainfall_intensity", "from_epoch"), ("water_level", "epoch")]) in eqs or \
-                (len(eqs) >= 2 and all(any(c.endswith("epoch") for _, c in e) for e in eqs))
+                    ta, tb = owner(pr[2][1], pr[2][2]), owner(pr[3][1], pr[3][2])
+                    if ta and tb:
+                        union((ta, pr[2][2]), (tb, pr[3][2]))
+            # IN (SELECT epoch FROM grid_time WHERE data_interval = ?) restricts, and ties the instant to grid_time
+            for pr in preds:
+                if pr[0] == "in" and pr[1][0] == "col" and len(pr[2]) == 1 and pr[2][0][0] == "subq":
+                    q_ = pr[2][0][1]
+                    if len(q_.columns) == 1 and q_.columns[0][0][0] == "col" and len(q_.sources) == 1 and q_.sources[0].table == "grid_time":
+                        ta = owner(pr[1][1], pr[1][2])
+                        if ta:
+                            union((ta, pr[1][2]), ("grid_time", q_.columns[0][0][2]))
+            joined = find(("rainfall_intensity", "from_epoch")) == find(("water_level", "epoch")) == find(("grid_time", "epoch"))
             ordered = bool(sel.order_by) and sel.order_by[0][0][0] == "col" and sel.order_by[0][0][2].endswith("epoch") and sel.order_by[0][1] == "ASC"
             chk.ob("C03.O6", restricted and joined and ordered, where_of(f, s.call),
                    "series query: restricted to the data interval argument: %s; three series joined on the same instant: %s; ordered by time ascending: %s" % (restricted, joined, ordered),
@@ -480,7 +526,7 @@ def _normalise_diff(ex, head):
                     return ast.Call(func=ast.Name(id="diffop", ctx=ast.Load()), args=[ast.Name(id=head, ctx=ast.Load())], keywords=[])
             return node
     import copy
-    return T().visit(copy.deepcopy(ex))
+    return T().visit(_clone(ex))
 
 
 def _readers(ctx, chk):
